@@ -644,6 +644,7 @@ def main(tier, pid='C01'):
     # configurations with undecided obligations are re-run once, few at a time and with a three-fold solver budget:
     # under a fully loaded pool solver time doubles and borderline queries time out
     redo = [i for i, r in enumerate(results) if r['ok'] and r['res']['unknown'] and not r['res']['sat']]
+    if len(redo) > 6: redo = []          # undecided obligations in many configurations are not a load artefact: no second pass, go to the witness search
     if redo:
         again = [dict(results[i]['cfg'], _timeout_ms=3*results[i]['cfg']['_timeout_ms']) for i in redo]
         for i, r2 in zip(redo, common.run_jobs('vp.checks.c01', 'job', again)):
@@ -708,6 +709,34 @@ def main(tier, pid='C01'):
                     else: violations.append((key, rp, 'end of the conelp iteration, %s -> %s' % (json.dumps(cfg), dd['violated'][:2])))
                 else:
                     herr.append('tail %s: counterexample for "%s" not reproduced (%s)' % (json.dumps(cfg), s_['label'], rp))
+    # ---- witness search for undecided obligations: the designed states (generic data, interior iterate, residuals made nonzero by
+    # shifting c, h, b) are run through the same harness on the real build; a reproduced violation is reported, anything else stays inconclusive
+    still = []; tried = {}
+    for item in inconc:
+        if item.startswith('tail ') or '}: ' not in item: still.append(item); continue
+        try: cfg = json.loads(item[:item.index('}: ') + 1]); label = item[item.index('}: ') + 3:]
+        except Exception: still.append(item); continue
+        st_w = label[label.rindex('[') + 1:-1] if label.endswith(']') and '[' in label else label.split(':')[0]
+        ck = json.dumps(cfg, sort_keys=True) + st_w
+        if ck not in tried:
+            tried[ck] = None
+            try: wits = get_spec(cfg["solver"]).witnesses(st_w, cfg, cfg.get("maxiters", 7))
+            except Exception: wits = []
+            for wi, w in enumerate(wits):
+                w2 = dict(w)
+                for nm in ('h0', 'c0', 'b0', 'q0'):
+                    if nm in w2: w2[nm] = w2[nm] + 1
+                rp = common.write_replay(pid, ck + 'witness%d' % wi, {'property': pid, 'cfg': cfg, 'label': label, 'model': {k_: str(v_) for k_, v_ in w2.items()}})
+                rep, why = replay_on_build(rp)
+                if rep is not None: tried[ck] = (rp, rep); break
+        if tried[ck] is None: still.append(item); continue
+        key = '%s:%s' % (cfg['solver'], label.split('[')[0].strip()[:60])
+        if key in seen: continue
+        seen[key] = 1
+        rp, rep = tried[ck]
+        if key in known: known_hits.append((key, known[key]['what']))
+        else: violations.append((key, rp, '%s -> %s (witness found by running designed states on the real build after the solver did not decide)' % (json.dumps(cfg), rep)))
+    inconc = still
     need = ('optimal',) if pid in ('C01', 'C03', 'C04') else ('primal infeasible', 'dual infeasible')
     for s_ in need:
         if not reach.get(s_): herr.append("reachability twin: no exactly-satisfiable path returning '%s'" % s_)
